@@ -443,7 +443,7 @@ def bs_validate(ctx, events, cases, pinned):
             good.append(e)
     cfg = ("INIT TInit\nNEXT TNext\nCONSTANTS\n Cases <- MCE\n Codes <- MCCodes\n EventFile <- MCEventFile\nCHECK_DEADLOCK FALSE\n"
            "INVARIANT ReportReq\nINVARIANT Report\n")
-    res = trace_run("BandBookTrace", cfg, [dict(id=e["id"], cs=e["cs"], ob=e["ob"]) for e in good],
+    res = trace_run("BandBookTrace", cfg, [dict(id=e["id"], cs=e["cs"], ob=e["ob"], **({"only": e["only"]} if "only" in e else {})) for e in good],
                     "MCE == {}\nMCCodes == {[lastPair |-> \"end\"], [lastPair |-> \"all\"]}\n")
     account(ctx, "MC_BandBookTrace", res, "(generated, %d events)" % len(good))
     if res.violated:
